@@ -31,7 +31,8 @@ type charsetModel struct {
 	bomTable  *ssa.Global
 	boms      []bomEntry
 	bomsOK    bool
-	bomSwitch bool // the BOM lookup is written as explicit byte tests (no table): judged by path conditions
+	bomSwitch bool      // the BOM lookup is written as explicit byte tests (no table): judged by path conditions
+	bomWrong  *ssa.Call // a table lookup of the charset package that matches the marks with something other than bytes.HasPrefix
 	plain     *ssa.Function
 	html      *ssa.Function
 	xml       *ssa.Function
@@ -485,6 +486,7 @@ func getCharset(c *core.Ctx) *charsetModel {
 			continue
 		}
 		var tbl *ssa.Global
+		var otherMatch *ssa.Call
 		hasPrefix := false
 		for _, b := range f.Blocks {
 			for _, in := range b.Instrs {
@@ -498,7 +500,18 @@ func getCharset(c *core.Ctx) *charsetModel {
 				if call, ok := in.(*ssa.Call); ok && core.CalleeIs(&call.Call, "bytes", "HasPrefix") && call.Call.Args[0] == ssa.Value(f.Params[0]) {
 					hasPrefix = true
 				}
+				// the same lookup with another matcher: the mark is not looked for at the start of the input
+				if call, ok := in.(*ssa.Call); ok && len(call.Call.Args) == 2 && call.Call.Args[0] == ssa.Value(f.Params[0]) {
+					for _, other := range []string{"Contains", "HasSuffix", "Equal"} {
+						if core.CalleeIs(&call.Call, "bytes", other) {
+							otherMatch = call
+						}
+					}
+				}
 			}
+		}
+		if tbl != nil && !hasPrefix && otherMatch != nil && core.FuncPkg(f) != nil && core.FuncPkg(f).Pkg.Path() == core.PkgCharset {
+			m.bomWrong = otherMatch
 		}
 		if tbl != nil && hasPrefix {
 			if m.bomFn != nil {
